@@ -8,7 +8,7 @@ use crate::report::{guard, hash_str, Local, Run};
 use serde_json::json;
 use std::time::{Duration, Instant};
 
-const TOKENS: &[&str] = &[
+pub(crate) const TOKENS: &[&str] = &[
     "and", "&&", "or", "||", "xor", "^^", "not", "!", "eq", "==", "ne", "!=", "ge", ">=", "le", "<=", "gt", ">",
     "lt", "<", "&", "bitwise_and", "contains", "matches", "~", "wildcard", "strict wildcard", "strict", "in",
     "any", "all", "(", ")", "[", "]", "{", "}", "[*]", "*", ",", "..", ".", "$", "$a", "$a.b", "$.", "\"", "\"a\"",
@@ -105,7 +105,7 @@ fn prefix(s: &str) -> String {
 
 /// Well-formedness of a parse error against the input it came from, both from
 /// the hooked fields and from the rendered text.
-fn check_error(
+pub(crate) fn check_error(
     input: &str,
     rendered: &str,
     line_no: usize,
